@@ -286,9 +286,8 @@ func (c *EvalCtx) call(x *ast.CallExpr) Term {
 		}
 		n := *c
 		n.st = c.loopSnap
-		mark := len(c.loopSnap.lines)
 		r := n.eval(x.Args[0])
-		c.st.mergeLines(c.loopSnap.lines[mark:])
+		c.st.mergeSnap(c.loopSnap)
 		c.side = append(c.side, n.side[len(c.side):]...)
 		return r
 	case "athead":
@@ -298,9 +297,8 @@ func (c *EvalCtx) call(x *ast.CallExpr) Term {
 		}
 		n := *c
 		n.st = c.headSnap
-		mark := len(c.headSnap.lines)
 		r := n.eval(x.Args[0])
-		c.st.mergeLines(c.headSnap.lines[mark:])
+		c.st.mergeSnap(c.headSnap)
 		c.side = append(c.side, n.side[len(c.side):]...)
 		return r
 	case "fresh":
@@ -467,6 +465,23 @@ func (c *EvalCtx) call(x *ast.CallExpr) Term {
 			args = append(args, c.eval(a))
 		}
 		return eq(c.u.detResult(dc, len(dc.Results)-1, args), intLit(0))
+	case "nth":
+		// nth(F, i, args...): the i-th result (from 0) of deterministic function F
+		id, ok := x.Args[0].(*ast.Ident)
+		lit, ok2 := x.Args[1].(*ast.BasicLit)
+		if !ok || !ok2 {
+			c.fail("nth(F, i, args...)")
+		}
+		dc := c.u.eng.deterministicByName(c.pkg, id.Name)
+		if dc == nil {
+			c.fail("nth: %s is not a deterministic function under contract", id.Name)
+		}
+		i, _ := strconv.Atoi(lit.Value)
+		var args []Term
+		for _, a := range x.Args[2:] {
+			args = append(args, c.eval(a))
+		}
+		return c.u.detResult(dc, i, args)
 	case "unchanged":
 		// unchanged(x.f) : the designated heap location has its old value
 		cur := c.eval(x.Args[0])
@@ -856,6 +871,14 @@ func (c *EvalCtx) deref(p Term) Term {
 	}
 	if _, ok := isStruct(pt.Elem()); ok {
 		return mkT(p.S, SInt, refOf(pt.Elem()))
+	}
+	if strings.HasPrefix(p.S, "(fa_") && strings.HasSuffix(p.S, ")") {
+		// the address of a field (x.f taken with &): the pointee is that field
+		if i := strings.Index(p.S, " "); i > 0 {
+			comp := p.S[len("(fa_"):i]
+			ref := mk(p.S[i+1:len(p.S)-1], SInt)
+			return c.u.loadLoc(c.st, Loc{Kind: 1, Comp: comp, CSort: arraySort(SInt, c.u.sortOf(pt.Elem())), Ref: ref, T: pt.Elem()})
+		}
 	}
 	comp, cs := c.u.cellComp(pt.Elem())
 	return c.u.loadLoc(c.st, Loc{Kind: 1, Comp: comp, CSort: cs, Ref: p, T: pt.Elem()})
